@@ -129,6 +129,14 @@ def run(tier, seed):
                 nsm = rnd.choice([{'': 'urn:one'}, {'': 'urn:two', 'o': 'urn:one'}, {'': 'http://www.w3.org/1999/xhtml'}, {'': 'urn:none'}])
             sc.add(pat, ops, namespaces=nsm)
             sc.meta[pat] = [[cp]]
+        # directed: the first / last element AMONG THOSE THAT MATCH S, written as a plain index
+        for kind, idx_, ofl in (('nth-child', 1, [[{'classes': ['x']}]]), ('nth-last-child', 1, [[{'type': (None, 'li')}]]),
+                                ('nth-child', rnd.choice([1, 2]), [[{'pseudos': [('not', [[{'classes': ['x']}]])]}]])):
+            from gen_selectors import show_list
+            pat = f':{kind}({idx_} of {show_list(ofl)})'
+            if pat not in sc.meta:
+                sc.add(pat, [('select', (), 0)] + [('match', sc.path_of[id(e)]) for e in sc.elements[:12]])
+                sc.meta[pat] = [[{'pseudos': [('nth', kind, 0, idx_, ofl)]}]]
         if '/xml/' in label or '/html5lib/' in label:
             # directed: the implicit `of *|*` counts EVERY sibling, whatever default namespace the caller supplies
             used = sorted({e.namespace for e in sc.elements if getattr(e, 'namespace', None)}) or ['urn:one']
